@@ -75,7 +75,15 @@ Decided:
          module, plain instance of a class of the tree -- everything else is "unknown / fine") no value the JSON encoder
          of the tree is certain to reject is put into a page context on any path (locals are followed through all
          their bindings and container stores, helpers through their return values); vacuous when the JSON view is
-         provably rendered in dev mode.
+         provably rendered in dev mode.  Provenance: a value a routed method of the meta application takes *by name* through
+         the injector is of unknown host kind when the host can supply it -- the name is not a built-in (RESERVED_ARGS), is not
+         provided by one of the meta application's own middlewares (bound by the chain, below the name table), and the
+         request-time layering read from ``BoundRoute.execute`` / ``Application.dispatch`` applies the dispatching
+         application's resources over the bound route's own (so a host resource shadows the meta application's own of the
+         same name); likewise the parameters of the peripheral methods that receive such a value through the dict handed to
+         ``inject``.  Such a value is put into a page context only as a text made from it (repr / str / format / %), after
+         being re-bound to one, or where an ``isinstance`` test on it is known to hold -- or the meta application's own
+         attribute is read instead.
 Declined: "200 for any host application" beyond R18.c / R18.f (code outside the protected calls other than calls of
 peripheral methods, totality of the handlers beyond the clauses above, JSON encodability of attributes of host objects such as a route's render argument); secrets inside the repr
 of non-secret-named resources whose class is not part of the tree.
@@ -87,6 +95,7 @@ from ..core import AnalysisError, norm, short
 from ..cfg import expand_conds
 from .c20 import check_template_escaping, autoescape_writes
 from .. import dust
+from ..layers import layers_of_value
 from .common import (cfg_of, fkey, conds, has_cond, cond_texts, stmts_of, walk_body, call_tail, call_name, returns_of,
                      raises_of, stmt_of, kwarg, protected_by, names_loaded, enclosing_tries, handler_catches)
 
@@ -2185,6 +2194,8 @@ def _r18e(rep, repo, meta):
 # external calls -- is "unknown / fine"):
 K_CLASS, K_CALLABLE, K_EXC, K_LAZY, K_MODULE, K_INSTANCE = 'a class object', 'a function / bound method', 'an exception object', \
     'a lazy iterator (generator / map / zip ..)', 'a module object', 'an instance of a class of the tree without a JSON form'
+# provenance: a value the views take *by name* through the injector can be an object of the host (see _host_params)
+K_HOST = 'a value injected by name that the host application can supply -- an object of unknown kind, never converted to text'
 SCALAR_CALLS = {'repr', 'str', 'unicode', 'ascii', 'len', 'int', 'float', 'bool', 'format', 'hex', 'oct', 'bin', 'id', 'round', 'sum', 'min', 'max',
                 'abs', 'ord', 'chr', 'hash', 'isinstance', 'issubclass', 'callable', 'hasattr', 'any', 'all', 'bytes2human'}
 MATERIALISE = {'list', 'tuple', 'sorted', 'set', 'frozenset', 'dict'}
@@ -2201,6 +2212,29 @@ class _Kinds(object):
     def __init__(self, repo):
         self.repo = repo
         self._busy = set()
+        self.host_params = {}          # function key -> names of the parameters the host can supply (K_HOST)
+
+    def _host_value(self, fi, e):
+        """The occurrence ``e`` of a host-suppliable parameter still holds whatever the host supplied: the name is not
+        re-bound by a statement of the function body in front of it, and no ``isinstance(<name>, ..)`` test is known to
+        hold where it is evaluated (then its kind is no longer unknown)."""
+        if e.id not in self.host_params.get(fi.key, ()):
+            return False
+        for st in fi.node.body:
+            if getattr(st, 'end_lineno', st.lineno) >= e.lineno:
+                break
+            if isinstance(st, (ast.Assign, ast.AnnAssign)) and st.value is not None and \
+                    any(isinstance(t, ast.Name) and t.id == e.id for t in (st.targets if isinstance(st, ast.Assign) else [st.target])):
+                return False
+        try:
+            known = expr_conds(fi, e)
+        except AnalysisError:
+            known = []
+        for test, pol in known:
+            if pol and isinstance(test, ast.Call) and call_name(test) == 'isinstance' and len(test.args) == 2 and \
+                    isinstance(test.args[0], ast.Name) and test.args[0].id == e.id:
+                return False
+        return True
 
     def of(self, fi, e, depth=0):
         """{kind: node} for the rejected kinds the value of ``e`` may have (or contain)."""
@@ -2317,6 +2351,8 @@ class _Kinds(object):
     def _name(self, fi, e, depth):
         name = e.id
         out = {}
+        if self._host_value(fi, e):
+            out[K_HOST] = e
         if name not in _local_names(fi):
             nested = nested_function(fi, name)
             if nested is not None:
@@ -2398,6 +2434,201 @@ def _json_dev_mode(repo, meta, init):
     return bool(found) and all(found)
 
 
+def _resource_layering(repo):
+    """How the injector's name table is layered at request time, read from ``BoundRoute.execute`` (the dict handed to
+    ``inject``: which layer is applied last wins) and ``Application.dispatch`` (what the dispatching application passes to
+    ``execute``): 'host' when the call-time keyword arguments -- which carry the resources of the dispatching (host)
+    application -- are applied over the bound route's own resources, 'own' when provably the route's own resources are
+    applied last or the dispatching application hands no resources on, None when the shape is not read (then the host is
+    taken to be able to supply a name: nothing shows that it cannot)."""
+    try:
+        route = repo.mod('clastic.route')
+        ex = route.func('BoundRoute.execute')
+        kw = ex.node.args.kwarg.arg if ex.node.args.kwarg is not None else None
+        inj = [c for c in walk_body(ex.node) if isinstance(c, ast.Call) and call_name(c) == 'inject' and len(c.args) >= 2]
+        if len(inj) != 1 or kw is None:
+            return None
+        ls = layers_of_value(ex.node, inj[0].args[1])
+        i_res = [i for i, l in enumerate(ls) if l.kind == 'source' and isinstance(l.node, ast.Attribute) and l.node.attr == 'resources']
+        i_kw = [i for i, l in enumerate(ls) if l.kind == 'source' and isinstance(l.node, ast.Name) and l.node.id == kw]
+        if not i_kw:
+            return 'own' if i_res and all(l.kind == 'literal' or i in i_res for i, l in enumerate(ls)) else None
+        if not i_res:
+            return 'host'
+        order = 'host' if max(i_kw) > max(i_res) else 'own'
+        if order == 'host':
+            # does the dispatching application hand its resources on at all?
+            app = repo.mod('clastic.application')
+            dp = app.func('Application.dispatch')
+            if not any(isinstance(n, ast.Attribute) and n.attr == 'resources' for n in ast.walk(dp.node)):
+                exe = [c for c in walk_body(dp.node) if isinstance(c, ast.Call) and isinstance(c.func, ast.Attribute) and c.func.attr == 'execute']
+                if len(exe) == 1:
+                    return 'own'
+        return order
+    except (AnalysisError, KeyError, AttributeError):
+        return None
+
+
+def _own_tables(repo, meta):
+    """(constant keys of the meta application's own resources or None, names its own middlewares provide, whether every one
+    of its middlewares was read) -- from the arguments of the base-class ``__init__`` call in the meta application's
+    constructor.  A middleware's ``provides`` is its class attribute, or the ``self.provides = ..`` of its constructor with
+    the constructor's parameters bound to the constants of the call / their defaults."""
+    mapp = meta.cls('MetaApplication')
+    init = repo.find_method(mapp, '__init__')
+    kind, m, app = repo.resolve(mapp.mod, 'Application')
+    base_init = repo.find_method(app, '__init__') if kind == 'class' else None
+    if init is None or base_init is None:
+        return None, set(), False
+    calls = [c for c in _walk(init) if isinstance(c, ast.Call) and isinstance(c.func, ast.Attribute) and c.func.attr == '__init__']
+    if len(calls) != 1:
+        return None, set(), False
+    call = calls[0]
+    explicit_self = not (isinstance(call.func.value, ast.Call) and call_name(call.func.value) == 'super')
+    b = bind_args(base_init, 0 if explicit_self else 1, call)
+    if b is None:
+        return None, set(), False
+    keys = None
+    if b.get('resources') is not None:
+        try:
+            ls = layers_of_value(init.node, b['resources'])
+            if ls and all(l.kind == 'literal' for l in ls):
+                keys = set(k for l in ls for k in l.keys)
+        except AnalysisError:
+            keys = None
+    mws = b.get('middlewares')
+    if mws is None:
+        return keys, set(), True
+    if isinstance(mws, ast.Name):
+        mws = _single_assignment(init, mws.id)
+        if mws is not None and any(isinstance(n, ast.Call) and isinstance(n.func, ast.Attribute) and n.func.attr in STORING and
+                                   isinstance(n.func.value, ast.Name) and n.func.value.id == b['middlewares'].id for n in _walk(init)):
+            mws = None
+    if not isinstance(mws, (ast.List, ast.Tuple)):
+        return keys, set(), False
+    provided, complete = set(), True
+    for el in mws.elts:
+        got = _provides_of(repo, init, el)
+        if got is None:
+            complete = False
+        else:
+            provided |= got
+    return keys, provided, complete
+
+
+def _provides_of(repo, fi, el):
+    """Names the middleware constructed by ``el`` provides to the endpoint (None when that is not read)."""
+    if not isinstance(el, ast.Call):
+        return None
+    try:
+        ci = repo.resolve_class(fi.mod, el.func)
+    except AnalysisError:
+        return None
+    if ci is None or isinstance(ci, str):
+        return None
+    out = set()
+    for attr in ('provides', 'endpoint_provides'):
+        cinit = repo.find_method(ci, '__init__')
+        stores = [n for c in repo.mro(ci) if not isinstance(c, str) for mm in c.methods.values() for n in _walk(mm)
+                  if isinstance(n, ast.Attribute) and n.attr == attr and isinstance(n.ctx, ast.Store)]
+        if not stores:
+            dc, val = repo.class_attr(ci, attr)
+            if dc is None:
+                return None
+            v = repo.try_fold(val, dc.mod) if val is not None else None
+            if not isinstance(v, (tuple, list)) or not all(isinstance(x, str) for x in v):
+                return None
+            out |= set(v)
+            continue
+        if cinit is None or cinit.mod.external or len(stores) != 1:
+            return None
+        st = cinit.mod.parents.get(stores[0])
+        if not (isinstance(st, ast.Assign) and st in cinit.node.body and len(st.targets) == 1 and isinstance(st.value, (ast.Tuple, ast.List))):
+            return None
+        b = bind_args(cinit, 1, el)
+        if b is None:
+            return None
+        a = cinit.node.args
+        names = [x.arg for x in a.posonlyargs + a.args]
+        dflt = dict(zip(names[len(names) - len(a.defaults):], a.defaults))
+        rebound = set(n.id for n in ast.walk(cinit.node) if isinstance(n, ast.Name) and isinstance(n.ctx, ast.Store))
+        for x in st.value.elts:
+            if isinstance(x, ast.Name) and x.id in names and x.id not in rebound:
+                x = b.get(x.id, dflt.get(x.id))
+            v = repo.try_fold(x, cinit.mod) if isinstance(x, ast.expr) and not any(isinstance(n, ast.Name) and n.id in names for n in ast.walk(x)) else None
+            if not isinstance(v, str):
+                return None
+            out.add(v)
+    return out
+
+
+def _host_params(rep, repo, meta, kinds, ctx):
+    """Fills ``kinds.host_params``: the parameters of the views that the *host* application can supply.
+
+    A routed method of the meta application is called by the injector: every parameter is looked up by name.  The built-in
+    names (RESERVED_ARGS of route.py) are bound by the framework and refused as resource names; a name one of the meta
+    application's own middlewares provides is bound by the middleware chain, inside the name table; every other name is
+    looked up in the layered resources -- and the layering (``_resource_layering``) decides whose value wins: with the
+    dispatching application's resources applied last, a resource of the *host* shadows the meta application's own of the
+    same name.  The parameters of the peripheral methods called through ``inject(<peripheral>.<method>, <dict>)`` are
+    what the routed method puts into that dict: host-suppliable where the entry is."""
+    route = repo.mod('clastic.route')
+    reserved = repo.try_fold(ast.Name(id='RESERVED_ARGS', ctx=ast.Load()), route)
+    if not isinstance(reserved, (tuple, list)) or not all(isinstance(x, str) for x in reserved):
+        raise AnalysisError('R18.f: the built-in names of the injector (RESERVED_ARGS of route.py) were not read')
+    reserved = set(reserved)
+    layering = _resource_layering(repo)
+    own_keys, provided, complete = _own_tables(repo, meta)
+    mapp = meta.cls('MetaApplication')
+    routed = _routed_methods(repo, meta, mapp)
+    views = set(f.key for f in _view_functions(repo, meta))
+    n = 0
+    for r in routed:
+        hp = set()
+        for p in r.params()[1:]:
+            if p in reserved or p in provided:
+                continue
+            if own_keys is not None and p in own_keys:
+                if layering != 'own':
+                    hp.add(p)
+            elif complete:
+                hp.add(p)
+        kinds.host_params[r.key] = hp
+        n += len(hp)
+    # what the routed methods hand to the peripherals through the injector
+    wanted = set(f.name for f in ctx if _class_of(f) is not None) | {'get_context', 'get_general_items', 'render_main_page_html'}
+    for r in routed:
+        for cf, call, chain in _inject_calls(repo, r, wanted, views=views):
+            if not _is_inject(cf, call) or len(call.args) < 2:
+                continue
+            target = call.args[0]
+            if isinstance(target, ast.Name):
+                target = _single_assignment(cf, target.id)
+            if not isinstance(target, ast.Attribute):
+                continue
+            try:
+                ls = layers_of_value(cf.node, call.args[1])
+            except AnalysisError:
+                continue
+            values = {}
+            for l in ls:
+                if l.kind == 'literal':
+                    values.update(l.values or {})
+            for t in ctx:
+                if t.name != target.attr or _class_of(t) is None:
+                    continue
+                for p in t.params()[1:]:
+                    v = values.get(p)
+                    if v is not None and K_HOST in kinds.of(cf, v):
+                        kinds.host_params.setdefault(t.key, set()).add(p)
+                        n += 1
+    rep.ok('R18.f', '%s::injected names' % META, 'request-time layering of the resources: %s; built-in names %s; names the meta application\'s own '
+           'middlewares provide: %s%s; host-suppliable parameters of the views: %d'
+           % ({'host': 'the dispatching application\'s resources are applied last', 'own': 'the bound route\'s own resources win',
+               None: 'not read (the host is taken to be able to supply a name)'}[layering], sorted(reserved), sorted(provided),
+              '' if complete else ' (not all read)', n), meta)
+
+
 def _r18f(rep, repo, meta):
     """Whatever the views return is fed to the JSON encoder (and to the templates): no value the encoder is certain to
     reject -- a class, a function / bound method, an exception object, a lazy iterator, a module, a plain instance of
@@ -2409,6 +2640,7 @@ def _r18f(rep, repo, meta):
         return
     ctx = _context_functions(repo, meta)
     kinds = _Kinds(repo)
+    _host_params(rep, repo, meta, kinds, ctx)
     n = 0
     for fi in ctx + [gmn]:
         gen = _is_generator(fi)
@@ -3634,7 +3866,7 @@ def run(rep):
     rep.rule('R18.b', 'attribute reads in get_mw_infos and in middleware __repr__ methods')
     rep.rule('R18.c', 'must-catch around each peripheral call')
     rep.rule('R18.d', 'Dust reference escaping of the meta templates')
-    rep.rule('R18.f', 'abstract kinds: no class / callable / exception / lazy iterator / module / plain instance is put into a page context')
+    rep.rule('R18.f', 'abstract kinds: no class / callable / exception / lazy iterator / module / plain instance / unconverted host-suppliable injected value is put into a page context')
     rep.rule('R18.e', 'taint: no __repr__ / __str__ / generated repr of a class of the tree, no method the views call on a host object, prints resource values / key material / the instance dictionary')
 
     def group(fn):
